@@ -198,7 +198,7 @@ class Observer:
     def after_body(self, d, var, coord, point):
         pass
 
-    def leaf(self, point, factors, prod, updated):
+    def leaf(self, point, factors, prod, updated, old=None):
         pass
 
     def level_end(self, d, var, point):
@@ -221,11 +221,12 @@ def execute(spec, tensors, Z, lvars, zl, observer=None, nested_and=True):
             for x in vals[1:]:
                 prod = prod * x
             updated = False
+            old = Payload.get(zcur)
             if style != "leader-follower" or Payload.get(prod) != 0:
                 zcur += prod
                 updated = True
             count[0] += 1
-            obs.leaf(point, vals, prod, updated)
+            obs.leaf(point, vals, prod, updated, old)
             return
         v = order[d]
         part = [n for n in names if v in lvars[n]]
